@@ -267,6 +267,21 @@ func (m *model) gen(wantOK bool) (text string, out outcome, what string, apply f
 	}
 	if !wantOK {
 		m.queue = nil // a failing line interrupts a prepared sequence
+		// prefer a skip that must fail: only hanging jobs outstanding, one of them started without "!"
+		if !m.noMoreBg && len(m.bg) > 0 && m.r.Intn(2) == 0 {
+			allHang, bad := true, false
+			for _, b := range m.bg {
+				if !b.hang {
+					allHang = false
+				}
+				if !b.neg {
+					bad = true
+				}
+			}
+			if allHang && bad {
+				return m.pick([]string{"skip", "skip 'jobs outstanding'"}), oFail, "end", func() { m.bg = nil; m.stdoutKnown = false; m.bgBroken() }
+			}
+		}
 		// prefer a wait that must fail when a job with an unexpected status is outstanding
 		if !m.noMoreBg && m.r.Intn(2) == 0 {
 			allDone := true
